@@ -119,6 +119,11 @@ pub fn cms_history(ctx: &mut Ctx, nops: u64) {
     for i in 1..=3 {
         ctx.op(format!("cms.new {} {} {} {}", i, ct, w, d));
     }
+    // a fourth sketch of the same shape under a different hasher (clone_from source/receiver)
+    let bh2 = ctx.rand_hasher();
+    ctx.hasher(bh2);
+    ctx.op(format!("cms.new 4 {} {} {}", ct, w, d));
+    ctx.hasher(bh);
     ctx.op("cms.getters 1".into());
     // whole-row collisions under the xor hasher: keys that agree modulo 2w
     let collide = ctx.rng.chance(1, 3);
@@ -138,7 +143,11 @@ pub fn cms_history(ctx: &mut Ctx, nops: u64) {
         let key = *ctx.rng.pick(&keys);
         let r = ctx.rng.below(100);
         if r < 30 {
-            ctx.op(format!("cms.add {} {}", i, key));
+            let a = ctx.op(format!("cms.add {} {}", i, key));
+            if a == "panic" {
+                ctx.stat("cms.overflow", 1);
+                ctx.op(format!("cms.new {} {} {} {}", i, ct, w, d));
+            }
             if ctx.rng.chance(1, 2) {
                 ctx.op(format!("cms.query {} {}", i, key));
             }
@@ -163,8 +172,24 @@ pub fn cms_history(ctx: &mut Ctx, nops: u64) {
             ctx.op(format!("cms.clear {}", i));
         } else if r < 95 {
             ctx.op(format!("cms.empty {}", i));
-        } else if r < 97 {
+        } else if r < 96 {
             ctx.op(format!("cms.clone {} {}", i, ctx.rng.clone().range(1, 3)));
+        } else if r < 98 {
+            // clone_from between sketches with different hashers, then keep using the receiver
+            let (dst, src) = if ctx.rng.chance(1, 2) { (4, i) } else { (i, 4) };
+            if ctx.rng.chance(1, 2) {
+                let k4 = *ctx.rng.pick(&keys);
+                ctx.op(format!("cms.add 4 {}", k4));
+            }
+            let a = ctx.op(format!("cms.clonefrom {} {}", dst, src));
+            if a == "ok" {
+                ctx.stat("cms.clonefrom", 1);
+                for key in keys.iter().take(12) {
+                    ctx.op(format!("both cms.query {} {} {}", dst, src, key));
+                }
+                let k = *ctx.rng.pick(&keys);
+                ctx.op(format!("both cms.add {} {} {}", dst, src, k));
+            }
         } else {
             for key in keys.iter().take(40) {
                 ctx.op(format!("cms.query {} {}", i, key));
@@ -370,8 +395,25 @@ pub fn res_history(ctx: &mut Ctx) {
         if ctx.rng.chance(1, 12) {
             // a batch through Extend (any point of the stream, any phase)
             let len = ctx.rng.range(1, (2 * k).max(3)).min(n - i);
-            let items: Vec<String> = (i..i + len).map(|x| x.to_string()).collect();
-            ctx.op(format!("res.extend 1 {}", items.join(" ")));
+            let mut items: Vec<String> = (i..i + len).map(|x| x.to_string()).collect();
+            if ctx.rng.chance(1, 2) {
+                // through a filtering iterator (inexact size_hint): junk items >= 2^40 are
+                // dropped by the filter, in particular a junk tail after the last real item
+                let mut mixed = vec![];
+                for it in items.drain(..) {
+                    if ctx.rng.chance(1, 3) {
+                        mixed.push(((1u64 << 40) + ctx.rng.below(1000)).to_string());
+                    }
+                    mixed.push(it);
+                }
+                for _ in 0..ctx.rng.below(3 * k + 4) {
+                    mixed.push(((1u64 << 40) + ctx.rng.below(1000)).to_string());
+                }
+                ctx.op(format!("res.extendf 1 {}", mixed.join(" ")));
+                ctx.stat("res.extendf", 1);
+            } else {
+                ctx.op(format!("res.extend 1 {}", items.join(" ")));
+            }
             ctx.op("res.get 1".into());
             ctx.stat("res.extend", 1);
             i += len;
@@ -533,8 +575,13 @@ pub fn heap_history(ctx: &mut Ctx, n: u64) {
 
 // ---------------------------------------------------------------------------------------------
 pub fn td_history(ctx: &mut Ctx, n: u64) {
+    td_history_shaped(ctx, n, None)
+}
+
+/// `force_atom`: Some(true/false) = a heavy weighted atom exactly at max() / min() (shape 6)
+pub fn td_history_shaped(ctx: &mut Ctx, n: u64, force_atom: Option<bool>) {
     let scale = ctx.rng.below(4);
-    let delta = *ctx.rng.pick(&[1.1f64, 2.0, 4.0, 10.0, 100.0, 1000.0]);
+    let delta = if force_atom.is_some() { *ctx.rng.pick(&[10.0f64, 30.0, 100.0, 1000.0]) } else { *ctx.rng.pick(&[1.1f64, 2.0, 4.0, 10.0, 100.0, 1000.0]) };
     let bl = *ctx.rng.pick(&[0u64, 1, 5, 10, 100]);
     ctx.stat(&format!("td.scale.{}", scale), 1);
     ctx.op(format!("td.new 1 {} {} {}", scale, fx(delta), bl));
@@ -542,11 +589,15 @@ pub fn td_history(ctx: &mut Ctx, n: u64) {
     ctx.op("td.empty 1".into());
     ctx.op(format!("td.quantile 1 {}", fx(0.5)));
     ctx.op(format!("td.cdf 1 {}", fx(0.0)));
-    let shape = ctx.rng.below(6);
+    let shape = if force_atom.is_some() { 6 } else { ctx.rng.below(7) };
     let near = *ctx.rng.pick(&[0.1f64, 0.3, 1e-3, 7.7, 123.456, 1e10 / 3.0]);
-    let weighted = ctx.rng.chance(1, 3);
+    let weighted = if force_atom.is_some() { true } else if shape == 6 { ctx.rng.chance(2, 3) } else { ctx.rng.chance(1, 3) };
+    // shape 6: a heavy atom sitting exactly at max() (or min()), spread over several centroids
+    let atom_at_max = force_atom.unwrap_or(ctx.rng.chance(1, 2));
+    let atom_w = *ctx.rng.pick(&[3.0f64, 3.0, 7.0, 0.3, 0.7]);
+    ctx.stat(&format!("td.shape.{}", shape), 1);
     // whole history scaled to a tiny / huge weight unit (positive weights far below f64::EPSILON)
-    let wunit = if weighted && ctx.rng.chance(1, 3) { *ctx.rng.pick(&[1e-30f64, 1e-18, 1e6]) } else { 1.0 };
+    let wunit = if weighted && force_atom.is_none() && ctx.rng.chance(1, 3) { *ctx.rng.pick(&[1e-30f64, 1e-18, 1e6]) } else { 1.0 };
     let mut inserted: Vec<f64> = vec![];
     for t in 0..n {
         let x = match shape {
@@ -556,6 +607,15 @@ pub fn td_history(ctx: &mut Ctx, n: u64) {
             3 => (ctx.rng.f01() * 12.0).exp() * if ctx.rng.chance(1, 2) { 1.0 } else { -1.0 }, // heavy tails
             // (almost) equal values: sum/count rounding puts centroid means an ulp outside [min, max]
             5 => near * (1.0 + *ctx.rng.pick(&[0.0, 0.0, 0.0, 1e-16, 2.3e-16, -1.2e-16, 1e-3])),
+            6 => {
+                if ctx.rng.chance(1, 2) {
+                    near
+                } else if atom_at_max {
+                    near * ctx.rng.f01() * 0.999
+                } else {
+                    near * (1.001 + ctx.rng.f01())
+                }
+            }
             _ => (ctx.rng.f01() + ctx.rng.f01() + ctx.rng.f01() - 1.5) * 100.0,
         };
         if weighted {
@@ -570,6 +630,7 @@ pub fn td_history(ctx: &mut Ctx, n: u64) {
                 7 => 1e-20,
                 _ => 1.0,
             };
+            let w = if shape == 6 && x == near { atom_w } else { w };
             let w = w * wunit;
             ctx.op(format!("td.insertw 1 {} {}", fx(x), fx(w)));
             if ctx.rng.chance(1, 10) {
